@@ -648,17 +648,21 @@ func gatherVsGather(withRestart bool) zzmc.Scenario {
 					fail += "NO-GATHER-CALL-ACCEPTED "
 				}
 				st, _ := gw.a.GetGatheringState()
-				nils, seen := 0, map[string]int{}
+				nils, seen, sinceMarker := 0, map[string]int{}, 0
 				for i, c := range gw.candLog {
 					if c == "nil" {
 						nils++
-						if i != len(gw.candLog)-1 {
+						sinceMarker = 0
+						// with a Restart in play a cycle may run to completion, be restarted, and a second accepted call may
+						// gather again: then something follows the first marker legitimately
+						if i != len(gw.candLog)-1 && !withRestart {
 							fail += "CANDIDATE-PUBLISHED-AFTER-END-OF-GATHERING-MARKER "
 						}
 
 						continue
 					}
 					seen[c]++
+					sinceMarker++
 				}
 				locals := map[string]int{}
 				for _, c := range gw.localCands() {
@@ -683,18 +687,32 @@ func gatherVsGather(withRestart bool) zzmc.Scenario {
 						fail += fmt.Sprintf("END-MARKERS=%d-STATE=%s ", nils, st)
 					}
 				} else {
-					// a cycle cancelled by Restart may have published part of its results; a second marker is never legitimate
+					// a cycle cancelled by Restart may have published part of its results; every marker needs an accepted call of
+					// its own (complete, Restart, gather again = two legitimate markers)
 					sort.Strings(fl)
 					fail += strings.Join(fl, "")
-					if nils > 1 {
-						fail += fmt.Sprintf("END-MARKERS=%d ", nils)
+					if nils > accepted {
+						fail += fmt.Sprintf("END-MARKERS=%d-ACCEPTED-CALLS=%d ", nils, accepted)
 					}
-					if st == GatheringStateGathering {
+					switch st {
+					case GatheringStateGathering:
 						fail += "GATHERING-NEVER-FINISHED "
+					case GatheringStateNew:
+						if len(locals) != 0 {
+							fail += fmt.Sprintf("CANDIDATE-OF-CANCELLED-CYCLE-IN-NEW-GENERATION(%d) ", len(locals))
+						}
+					case GatheringStateComplete:
+						// the completion came last: its marker is the last entry and what it published is still local
+						if len(gw.candLog) == 0 || gw.candLog[len(gw.candLog)-1] != "nil" {
+							fail += "STATE-COMPLETE-BUT-THE-LAST-EVENT-IS-NOT-THE-END-MARKER "
+						}
+						// (a cancelled cycle may have published a candidate without a marker before it, so the log alone does not
+						// delimit the last cycle; this configuration has exactly one eligible address)
+						if len(locals) != 1 {
+							fail += fmt.Sprintf("STATE-COMPLETE-WITH-%d-LOCAL-CANDIDATES-INSTEAD-OF-1 ", len(locals))
+						}
 					}
-					if st == GatheringStateNew && len(locals) != 0 {
-						fail += fmt.Sprintf("CANDIDATE-OF-CANCELLED-CYCLE-IN-NEW-GENERATION(%d) ", len(locals))
-					}
+					_ = sinceMarker
 				}
 				out := fmt.Sprintf("accepted=%d locals=%d published=%d nils=%d state=%s", accepted, len(locals), len(gw.candLog), nils, st)
 				gw.Close()
